@@ -4,6 +4,7 @@ import (
 	"bytes"
 	"encoding/base64"
 	"fmt"
+	"math"
 	"math/bits"
 	"strings"
 
@@ -320,6 +321,34 @@ func c09Explore(src *choice.Src) *core.Result {
 			res.Probes["coordinate-beyond-2^32-records"]++
 		}
 	}
+	// the last positions an int64 can name: records just below and at 2^62 (the position of record 2^62
+	// is exactly MaxInt64); reference arithmetic in uint64
+	for i := 0; i < 2 && res.Violation == nil; i++ {
+		r := uint64(1)<<62 - uint64(src.Intn(41))
+		tz := bits.TrailingZeros64(r + 1)
+		l := 0
+		if tz > 0 && src.Bool(1, 2) {
+			l = src.Intn(tz + 1)
+		}
+		idx := 2*r - uint64(bits.OnesCount64(r)) + uint64(l)
+		if idx > math.MaxInt64 {
+			continue
+		}
+		off := int64((r+1)>>uint(l)) - 1
+		var gl int
+		var go_ int64
+		var back int64
+		if !guardCall(res, "C09", fmt.Sprintf("SplitStoredHashIndex(%d)", idx), func() { gl, go_ = tlog.SplitStoredHashIndex(int64(idx)) }) {
+			break
+		}
+		if gl != l || go_ != off {
+			res.Fail("C09", "index-bijection", "SplitStoredHashIndex disagrees with the storage order", "position %d (record %d, near 2^62): got (level %d, offset %d), reference (level %d, offset %d)", idx, r, gl, go_, l, off)
+		}
+		if guardCall(res, "C09", "StoredHashIndex near 2^62", func() { back = tlog.StoredHashIndex(l, off) }) && uint64(back) != idx {
+			res.Fail("C09", "index-bijection", "StoredHashIndex disagrees with the storage order", "StoredHashIndex(%d, %d) = %d, reference %d", l, off, back, idx)
+		}
+		res.Probes["position-near-MaxInt64"]++
+	}
 	for i := 0; i < 3; i++ {
 		big := int64(src.Uint64n(1 << 61))
 		if src.Bool(1, 2) {
@@ -599,7 +628,7 @@ func init() {
 			"Distinct = (history length, event digest); non-trivial = at least 2 appends. NOTE: the only injectable fault is the HashReader seam of StoredHashes/TreeHash; the layout laws themselves are pure relations checked against the reference.",
 		Real:        []string{"tlog.StoredHashes, StoredHashesForRecordHash, TreeHash, StoredHashIndex, SplitStoredHashIndex, StoredHashCount, RecordHash", "tlog.FormatTree/ParseTree, FormatRecord/ParseRecord, Hash.String/ParseHash/JSON"},
 		Stub:        []string{"dense hash store with failing reads", "reference RFC 6962 tree (materialised and virtual uniform)"},
-		Assumptions: []string{"SHA-256 collision resistance", "coordinates are exercised below 2^61 records so that stored positions fit in int64"},
+		Assumptions: []string{"SHA-256 collision resistance", "log sizes are exercised up to 2^61 records and positions up to MaxInt64 (the position of record 2^62); counts and positions of larger logs do not fit in int64 and the API has no way to report that"},
 	})
 	core.ExpectProbes("C09", "coordinate-beyond-2^32-records", "virtual-log-above-2^32", "operation-ran-inside-another-logs-read", "interleaved-after-failed-read")
 }
